@@ -955,7 +955,7 @@ def hasUnknown (f : Facts) : Bool :=
   f.stCond.isNone || f.stType.isNone || f.stPath.isNone || f.stOp.isNone || f.stMsgpack.isNone ||
   f.stNonstr.isNone || f.seedDefault.isNone ||
   f.opOrder.isNone || f.condOrder.isNone || f.protoOps.isNone || f.protoConds.isNone ||
-  f.wireConv == .unknown || !(wireOf f).sized || f.seedMapCheck == .unknown
+  f.wireConv == .unknown || !(wireOf f).clean || f.seedMapCheck == .unknown
 
 def allGood (f : Facts) : Bool :=
   f.validatesValues == .yes && f.nanCompare == .neverEqual && f.removeValCompare == .canonical &&
@@ -990,23 +990,27 @@ theorem classify_sound (f : Facts) : (classify f).Sound (Full f) (HoldsExcept (c
       have hv : (cfgOf f).validatesValues = true := by simp [cfgOf, h1, Tri.isYes]
       have hc : (cfgOf f).rmvalCanon = true := by simp [cfgOf, h3]
       have hn : (cfgOf f).nan = .neverEqual := by simp [cfgOf, h2]
+      have hws : (wireOf f).clean = true := by
+        cases hsz : (wireOf f).clean with
+        | true => rfl
+        | false => exact absurd (by simp [hasUnknown, hsz]) hu
+      exact ⟨holds_of_good hv hn hc, ⟨h4, fun tr ops cond create seed m =>
+        patchFields_refines (pfOf f) hv hc h4 tr ops cond create seed m⟩, WireCfg.holds_of_agrees hws h5,
+        fun _ _ _ _ h => pfGate_created_map hsm h⟩
+    · rename_i hb
+      refine ⟨fun hfull => ?_, holds_except _⟩
+      obtain ⟨hH, hP, hW, hS⟩ := hfull
       have hwc : (wireOf f).conv ≠ .unknown := by
         intro hx
         apply hu
         have : f.wireConv = .unknown := hx
         simp [hasUnknown, this]
-      have hws : (wireOf f).sized = true := by
-        cases hsz : (wireOf f).sized with
+      have hws : (wireOf f).clean = true := by
+        cases hsz : (wireOf f).clean with
         | true => rfl
         | false => exact absurd (by simp [hasUnknown, hsz]) hu
-      exact ⟨holds_of_good hv hn hc, ⟨h4, fun tr ops cond create seed m =>
-        patchFields_refines (pfOf f) hv hc h4 tr ops cond create seed m⟩, WireCfg.holds_of_agrees hwc hws h5,
-        fun _ _ _ _ h => pfGate_created_map hsm h⟩
-    · rename_i hb
-      refine ⟨fun hfull => ?_, holds_except _⟩
-      obtain ⟨hH, hP, hW, hS⟩ := hfull
       cases hwa : (wireOf f).agrees with
-      | false => exact WireCfg.not_holds_of_disagree hwa hW
+      | false => exact WireCfg.not_holds_of_disagree hwc hws hwa hW
       | true =>
         obtain ⟨vv, nc, fx, dk, rv, m0, m1, s1, s2, s3, s4, s5, s6, sd, oo, co, po, pc, wc, sm⟩ := f
         cases sm with
